@@ -7,7 +7,9 @@ From Pipe Require Import Model.
 Require Import ExtrOcamlBasic.
 Definition replay_facts : pfacts :=
   {| f_pending_recheck := fact_pending_arm_rechecks_closed; f_default_depth := fact_pipe_backpressure_count;
-     f_poll_next_replaces_waker := fact_poll_next_stores_waker |}.
+     f_poll_next_replaces_waker := fact_poll_next_stores_waker;
+     f_drop_wakes_before_dispose := fact_stream_drop_wakes_before_dispose |}.
 Extraction Language OCaml.
-Extraction "pipemodel.ml" step step_label label_of init run replay_facts facts_repaired facts_unrepaired facts_stale_waker
-  released ctx_referenced is_live dropped desync_alive core_gone core_locked pollable probe_pollable.
+Extraction "pipemodel.ml" step step_label label_of init init_slow run replay_facts facts_repaired facts_unrepaired
+  facts_stale_waker facts_swapped_drop released ctx_referenced is_live dropped desync_alive drained core_gone core_locked
+  pollable probe_pollable.
